@@ -104,10 +104,13 @@ func (m *Nitro) DecodeItem(ver int, buf []byte, r io.Reader) (*Item, uint32, err
 		itm := m.allocItem(l, m.useMemoryMgmt)
 		data := itm.Bytes()
 		_, err := io.ReadFull(r, data)
-		if err == nil {
-			checksum = checksum ^ crc32.ChecksumIEEE(data)
+		if err != nil {
+			// Callers drop the item on error. Do not leak its block.
+			m.freeItem(itm)
+			return nil, checksum, err
 		}
-		return itm, checksum, err
+		checksum = checksum ^ crc32.ChecksumIEEE(data)
+		return itm, checksum, nil
 	}
 
 	return nil, checksum, nil
